@@ -344,17 +344,39 @@ def _native_isolated(eng, ob, repo):
             os._exit(0)
     os.close(w)
     chunks = []
+    import select, signal as _sig
+    deadline = time.time() + float(os.environ.get("VERIF_NATIVE_TIMEOUT", "60"))
+    timed_out = False
     while True:
+        left = deadline - time.time()
+        if left <= 0:
+            timed_out = True
+            break
+        rl, _, _ = select.select([r], [], [], left)
+        if not rl:
+            timed_out = True
+            break
         c = os.read(r, 65536)
         if not c:
             break
         chunks.append(c)
     os.close(r)
+    if timed_out:
+        try:
+            os.kill(pid, _sig.SIGKILL)
+        except OSError:
+            pass
     _pid, status = os.waitpid(pid, 0)
+    if timed_out:
+        return {"confirmed": None, "info": {"error": "native replay timed out (the counter-model drives the native code into a long loop "
+                                                     "or the library build took too long)"}}
     if not chunks:
         return {"confirmed": None, "info": {"error": "native replay process died (wait status %d): the counter-model drives "
                                                      "the native code into a crash or the replay harness cannot build the input" % status}}
     return json.loads(b"".join(chunks).decode())
+
+
+_FAILS = {}
 
 
 def _discharge_one(eng, ob, budget, repo):
@@ -362,9 +384,18 @@ def _discharge_one(eng, ob, budget, repo):
         # decided by exact evaluation in the pack: keep verdict and the detail (names the offending member/writer)
         return {"verdict": ob.verdict, "backend": ob.backend, "time": ob.time, "detail": ob.detail, "model": ob.model,
                 "native": None}
+    fails = _FAILS.get(id(eng), 0)
+    if fails >= 6:
+        # this task already has several failing obligations: do not spend the full budget on each further one
+        budget = dict(budget)
+        budget.update(z3_ms=min(budget.get("z3_ms", 20000), 3000), polyid_s=min(budget.get("polyid_s", 60), 8), cvc5_s=0)
     backends.discharge(ob, budget)
+    if ob.verdict != "proved":
+        _FAILS[id(eng)] = fails + 1
     native = None
-    if ob.verdict == "refuted" and ob.meta.get("z3model") is not None:
+    if fails >= 3:
+        pass
+    elif ob.verdict == "refuted" and ob.meta.get("z3model") is not None:
         ctx = ob.meta.get("ctx")
         rec = ctx.primary_call() if ctx is not None else None
         if rec is not None:
@@ -450,19 +481,22 @@ def run_task(task, repo=None, budget=None, engine_setup=None):
             e.loopspecs = {}
             e.contracts = {}
             task.func(ctx)
-            # vacuity guard: the hypotheses accumulated on this path must be satisfiable
+            # vacuity guard: remember whether the hypotheses accumulated on this completed path are satisfiable.  A single
+            # contradictory path is only an infeasible branch that the (time-limited) pruning did not cut; the contract is
+            # vacuous if NO completed path is satisfiable.
             sol = z3.Solver()
             sol.set("timeout", 3000)
             for h in ctx.st.pc:
                 sol.add(h)
-            if sol.check() == z3.unsat:
-                from .csym import Obligation
-                ob = Obligation(e.prefix + task.name + ".cover.path_hypotheses_satisfiable", [], z3.BoolVal(False), "cover")
-                ob.verdict, ob.backend, ob.detail = "refuted", "z3", "hypotheses of a completed path are contradictory (vacuous proof)"
-                e.obligations.append(ob)
-            covers.append(1)
+            covers.append(sol.check() != z3.unsat)
         covers = []
         res["paths"] = eng.explore(body)
+        if covers and not any(covers):
+            from .csym import Obligation
+            ob = Obligation(eng.prefix + task.name + ".cover.some_path_has_satisfiable_hypotheses", [], z3.BoolVal(False), "cover")
+            ob.verdict, ob.backend = "refuted", "z3"
+            ob.detail = "the hypotheses of every completed path are contradictory (vacuous contract)"
+            eng.obligations.append(ob)
         b = dict(budget or {})
         if task.order:
             b["order"] = task.order
